@@ -1223,6 +1223,13 @@ class SymChoice:
             raise AttributeError(name)
         return getattr(self.concretize(), name)
 
+    # container / callable protocol: decide which object it is (fork), then delegate
+    def __getitem__(self, k): return sx_getitem(self.concretize(), k)
+    def __call__(self, *a, **kw): return self.concretize()(*a, **kw)
+    def __iter__(self): return iter(self.concretize())
+    def __len__(self): return len(self.concretize())
+    def __contains__(self, x): return x in self.concretize()
+
 
 def merge_values(conds, vals):
     """if-then-else over (cond_i -> val_i); conds are z3 Bools assumed exhaustive"""
